@@ -199,6 +199,14 @@ def classify(case, impl, model):
             return None
     if not ids or any(i is None for i in ids):
         return None           # a panic / abort / time-out at a site that is not listed: VIOLATION
+    # a finding that lists the planted shapes it is about (`tag_prefixes`) is attributed only to those files (or its witness):
+    # a stack overflow reached through any OTHER shape (e.g. a colour space that names itself as its alternate) is a new violation
+    for i in ids:
+        f = next((f for f in _findings() if f["id"] == i), None)
+        pre = (f or {}).get("tag_prefixes")
+        shape = getattr(case, "note", "") or ""          # the planted file's tag (e.g. `cycle:type0-own-descendant+prefix:1byte`)
+        if pre and not (shape.startswith(tuple(pre)) or any(t == "witness:" + i for t in case.tags)):
+            return None
     return ids[0]
 
 
